@@ -159,7 +159,7 @@ class Engine:
         for a, v in calls:
             if len(a) == len(args) and all(x is y for x, y in zip(a, args)):
                 return v
-        v = self.fresh(name, sort or z3.BoolSort())
+        v = self.fresh(name, z3.BoolSort() if sort is None else sort)
         for a, v2 in calls:
             if len(a) != len(args):
                 continue
